@@ -109,10 +109,21 @@ FitShapesOK(c, f, mtest) ==
     /\ IsMat(f.yload, YCols(c), c.nc) /\ IsMat(f.pred, mtest, YCols(c))
 ColNorm2(T, col) == FSum(T.shape[1], LAMBDA a : MulQ6(Mat(T, a, col), Mat(T, a, col)))
 UnitCols(T) == \A col \in 1..T.shape[2] : AbsI(ColNorm2(T, col) - S) <= UnitTol(T.shape[1])
-SameLoads(c, f, g) == /\ \A m \in 1..Len(c.xs) : Close(f.loads[m], g.loads[m], PlsTol)
-                      /\ Close(f.yload, g.yload, PlsTol)
-RowPermuted(A, B, perm) ==      \* A[a, :] = B[perm[a] + 1, :]
-    A.shape = B.shape /\ \A a \in 1..A.shape[1] : \A b \in 1..A.shape[2] : AbsI(Mat(A, a, b) - Mat(B, perm[a] + 1, b)) <= PlsTol
+\* Two fits "have the same loadings / scores".  On "contrast" data a loading is (c, -c) with bit-identical magnitudes:
+\* the sign convention of the SVD start (largest entry positive) sits on an exact tie and round-off decides it, so
+\* two fits may differ by the sign of whole columns -- the same model (predictions are compared strictly).
+\* Elsewhere equality is demanded as it stands.
+ColsMatch(A, B, rowOf(_), sgn) ==      \* A[a, b] = sgn[b] * B[rowOf(a), b]
+    A.shape = B.shape /\ \A a \in 1..A.shape[1] : \A b \in 1..A.shape[2] : AbsI(Mat(A, a, b) - sgn[b] * Mat(B, rowOf(a), b)) <= PlsTol
+SameMat(c, A, B, rowOf(_)) ==
+    IF c.dat = "contrast"
+    THEN A.shape = B.shape /\ \A b \in 1..A.shape[2] : \E sg \in {1, -1} :
+              \A a \in 1..A.shape[1] : AbsI(Mat(A, a, b) - sg * Mat(B, rowOf(a), b)) <= PlsTol
+    ELSE ColsMatch(A, B, rowOf, [b \in 1..A.shape[2] |-> 1])
+SameLoads(c, f, g) == /\ \A m \in 1..Len(c.xs) : SameMat(c, f.loads[m], g.loads[m], LAMBDA a : a)
+                      /\ SameMat(c, f.yload, g.yload, LAMBDA a : a)
+SameScores(c, A, B) == SameMat(c, A, B, LAMBDA a : a)
+RowPermuted(c, A, B, perm) == SameMat(c, A, B, LAMBDA a : perm[a] + 1)      \* A[a, :] = B[perm[a] + 1, :]
 Shifted(A, B, off) == A.shape = B.shape /\ \A n \in 1..Len(A.data) : AbsI(A.data[n] - off * S - B.data[n]) <= PlsTol
 
 \* base fit: transform(X_train, Y_train) returns (X scores, Y scores) = (X_factors[0], Y_factors[0]); fit_transform of a
@@ -137,7 +148,7 @@ PlsExtraV(c, e) ==
     ELSE IF ~FitShapesOK(c, x.again, e.mtest) THEN "Shapes"
     ELSE IF ~(AllFin(x.again.scores) /\ AllFin(x.again.transform) /\ AllFin(x.again.yload) /\ AllFin(x.again.pred)
               /\ \A m \in 1..Len(c.xs) : AllFin(x.again.loads[m])) THEN "Finite"
-    ELSE IF ~(SameLoads(c, x.again, e.base) /\ Close(x.again.scores, e.base.scores, PlsTol) /\ Close(x.again.pred, e.base.pred, PlsTol)) THEN "FitTwiceSame"
+    ELSE IF ~(SameLoads(c, x.again, e.base) /\ SameScores(c, x.again.scores, e.base.scores) /\ Close(x.again.pred, e.base.pred, PlsTol)) THEN "FitTwiceSame"
     \* a fit that the estimator rejects (first modes of X and Y differ / Y of order 3: documented ValueError) must leave the
     \* fitted model untouched: transform and predict still agree with the exposed attributes
     ELSE IF ~(x.reject.raised /\ x.reject.exc = "ValueError") THEN "BadFitNotRejected"
@@ -149,8 +160,8 @@ PlsExtraV(c, e) ==
     ELSE IF ~FitShapesOK(c, x.refit, e.mtest) THEN "Shapes"
     ELSE IF ~(AllFin(x.refit.scores) /\ AllFin(x.refit.transform) /\ AllFin(x.refit.yload) /\ AllFin(x.refit.pred)
               /\ \A m \in 1..Len(c.xs) : AllFin(x.refit.loads[m])) THEN "Finite"
-    ELSE IF ~(SameLoads(c, x.refit, e.permfit) /\ Close(x.refit.scores, e.permfit.scores, PlsTol)
-              /\ Close(x.refit.transform, e.permfit.transform, PlsTol) /\ Close(x.refit.pred, e.permfit.pred, PlsTol)) THEN "RefitIndependent"
+    ELSE IF ~(SameLoads(c, x.refit, e.permfit) /\ SameScores(c, x.refit.scores, e.permfit.scores)
+              /\ SameScores(c, x.refit.transform, e.permfit.transform) /\ Close(x.refit.pred, e.permfit.pred, PlsTol)) THEN "RefitIndependent"
     ELSE "ok"
 
 PlsV(e) ==
@@ -166,14 +177,14 @@ PlsV(e) ==
     ELSE IF PlsExtraV(c, e) # "ok" THEN PlsExtraV(c, e)
     ELSE IF \E f \in {e.base, e.shiftx, e.shifty, e.permfit} :
                  ~UnitCols(f.yload) \/ \E m \in 1..Len(c.xs) : ~UnitCols(f.loads[m]) THEN "UnitLoadings"
-    ELSE IF ~SameLoads(c, e.base, e.shiftx) \/ ~Close(e.base.scores, e.shiftx.scores, PlsTol) THEN "ShiftXLoadings"
+    ELSE IF ~SameLoads(c, e.base, e.shiftx) \/ ~SameScores(c, e.base.scores, e.shiftx.scores) THEN "ShiftXLoadings"
     ELSE IF ~Close(e.shiftx.pred, e.base.pred, PlsTol) THEN "ShiftXPredict"
-    ELSE IF ~SameLoads(c, e.base, e.shifty) \/ ~Close(e.base.scores, e.shifty.scores, PlsTol) THEN "ShiftYLoadings"
+    ELSE IF ~SameLoads(c, e.base, e.shifty) \/ ~SameScores(c, e.base.scores, e.shifty.scores) THEN "ShiftYLoadings"
     ELSE IF ~Shifted(e.shifty.pred, e.base.pred, e.yoff) THEN "ShiftYPredict"
-    ELSE IF ~RowPermuted(e.permfit.scores, e.base.scores, e.perm) THEN "PermScores"
+    ELSE IF ~RowPermuted(c, e.permfit.scores, e.base.scores, e.perm) THEN "PermScores"
     ELSE IF ~SameLoads(c, e.base, e.permfit) THEN "PermLoadings"
     ELSE IF ~Close(e.permfit.pred, e.base.pred, PlsTol) THEN "PermPredict"
-    ELSE IF ~RowPermuted(e.permfit.transform, e.base.transform, e.perm) THEN "PermTransform"
+    ELSE IF ~RowPermuted(c, e.permfit.transform, e.base.transform, e.perm) THEN "PermTransform"
     ELSE "ok"
 
 -----------------------------------------------------------------------------
